@@ -7,29 +7,29 @@ Local Open Scope N_scope.
 (* ------------------------------------------------------------------------ *)
 (* keys                                                                      *)
 (* ------------------------------------------------------------------------ *)
-Lemma key_eqb_eq a b : key_eqb a b = true <-> a = b.
+Lemma key_eqb_eq a b : hbytes_eqb a b = true <-> a = b.
 Proof.
-  revert b; induction a as [|x a IH]; intros [|y b]; cbn [key_eqb]; split; intros H;
+  revert b; induction a as [|x a IH]; intros [|y b]; cbn [hbytes_eqb]; split; intros H;
     try reflexivity; try discriminate.
   - apply andb_true_iff in H as [H1 H2]. apply N.eqb_eq in H1. apply IH in H2. congruence.
   - injection H as -> ->. rewrite N.eqb_refl. cbn. apply IH. reflexivity.
 Qed.
 
-Lemma key_eqb_refl a : key_eqb a a = true.
+Lemma key_eqb_refl a : hbytes_eqb a a = true.
 Proof. apply key_eqb_eq; reflexivity. Qed.
 
-Lemma key_eqb_neq a b : a <> b -> key_eqb a b = false.
-Proof. intros H. destruct (key_eqb a b) eqn:E; [apply key_eqb_eq in E; contradiction|reflexivity]. Qed.
+Lemma key_eqb_neq a b : a <> b -> hbytes_eqb a b = false.
+Proof. intros H. destruct (hbytes_eqb a b) eqn:E; [apply key_eqb_eq in E; contradiction|reflexivity]. Qed.
 
-Lemma key_in_In k l : key_in k l = true <-> In k l.
+Lemma key_in_In k l : hbytes_in k l = true <-> In k l.
 Proof.
-  induction l as [|x r IH]; cbn [key_in In]; [split; [discriminate|tauto]|].
+  induction l as [|x r IH]; cbn [hbytes_in In]; [split; [discriminate|tauto]|].
   rewrite orb_true_iff, key_eqb_eq, IH. tauto.
 Qed.
 
-Lemma keys_nodup_NoDup l : keys_nodup l = true -> NoDup l.
+Lemma keys_nodup_NoDup l : hbytes_nodup l = true -> NoDup l.
 Proof.
-  induction l as [|x r IH]; cbn [keys_nodup]; intros H; [constructor|].
+  induction l as [|x r IH]; cbn [hbytes_nodup]; intros H; [constructor|].
   apply andb_true_iff in H as [H1 H2]. constructor; [|auto].
   intros Hin. apply key_in_In in Hin. rewrite Hin in H1. discriminate.
 Qed.
@@ -37,40 +37,40 @@ Qed.
 (* ------------------------------------------------------------------------ *)
 (* hset                                                                      *)
 (* ------------------------------------------------------------------------ *)
-Lemma hset_length {A} (l : list A) i x : length (hset l i x) = length l.
-Proof. revert i; induction l as [|a l IH]; intros [|i]; cbn [hset length]; auto. Qed.
+Lemma hset_length {A} (l : list A) i x : length (dh_set l i x) = length l.
+Proof. revert i; induction l as [|a l IH]; intros [|i]; cbn [dh_set length]; auto. Qed.
 
-Lemma hset_nth_eq {A} (l : list A) i x : (i < length l)%nat -> nth_error (hset l i x) i = Some x.
+Lemma hset_nth_eq {A} (l : list A) i x : (i < length l)%nat -> nth_error (dh_set l i x) i = Some x.
 Proof.
-  revert i; induction l as [|a l IH]; intros [|i] H; cbn [hset length nth_error] in *; try lia; auto.
+  revert i; induction l as [|a l IH]; intros [|i] H; cbn [dh_set length nth_error] in *; try lia; auto.
   apply IH; lia.
 Qed.
 
-Lemma hset_nth_neq {A} (l : list A) i j x : i <> j -> nth_error (hset l i x) j = nth_error l j.
+Lemma hset_nth_neq {A} (l : list A) i j x : i <> j -> nth_error (dh_set l i x) j = nth_error l j.
 Proof.
-  revert i j; induction l as [|a l IH]; intros [|i] [|j] H; cbn [hset nth_error]; auto; try congruence.
+  revert i j; induction l as [|a l IH]; intros [|i] [|j] H; cbn [dh_set nth_error]; auto; try congruence.
 Qed.
 
-Lemma hset_In {A} (l : list A) i x y : In y (hset l i x) -> y = x \/ In y l.
+Lemma hset_In {A} (l : list A) i x y : In y (dh_set l i x) -> y = x \/ In y l.
 Proof.
-  revert i; induction l as [|a l IH]; intros [|i]; cbn [hset In]; intros H; auto.
+  revert i; induction l as [|a l IH]; intros [|i]; cbn [dh_set In]; intros H; auto.
   - destruct H; auto.
   - destruct H as [H|H]; auto. apply IH in H. tauto.
 Qed.
 
-Lemma hsetN_lenN {A} (l : list A) i x : lenN (hsetN l i x) = lenN l.
-Proof. unfold lenN, hsetN. rewrite hset_length. reflexivity. Qed.
+Lemma hsetN_lenN {A} (l : list A) i x : lenN (dh_setN l i x) = lenN l.
+Proof. unfold lenN, dh_setN. rewrite hset_length. reflexivity. Qed.
 
-Lemma hsetN_length {A} (l : list A) i x : length (hsetN l i x) = length l.
-Proof. unfold hsetN. apply hset_length. Qed.
+Lemma hsetN_length {A} (l : list A) i x : length (dh_setN l i x) = length l.
+Proof. unfold dh_setN. apply hset_length. Qed.
 
-Lemma nthN_hsetN_eq {A} (l : list A) i x : i < lenN l -> nthN (hsetN l i x) i = Some x.
-Proof. unfold nthN, hsetN, lenN. intros H. apply hset_nth_eq. lia. Qed.
+Lemma nthN_hsetN_eq {A} (l : list A) i x : i < lenN l -> nthN (dh_setN l i x) i = Some x.
+Proof. unfold nthN, dh_setN, lenN. intros H. apply hset_nth_eq. lia. Qed.
 
-Lemma nthN_hsetN_neq {A} (l : list A) i j x : i <> j -> nthN (hsetN l i x) j = nthN l j.
-Proof. unfold nthN, hsetN. intros H. apply hset_nth_neq. lia. Qed.
+Lemma nthN_hsetN_neq {A} (l : list A) i j x : i <> j -> nthN (dh_setN l i x) j = nthN l j.
+Proof. unfold nthN, dh_setN. intros H. apply hset_nth_neq. lia. Qed.
 
-Lemma hsetN_In {A} (l : list A) i x y : In y (hsetN l i x) -> y = x \/ In y l.
+Lemma hsetN_In {A} (l : list A) i x y : In y (dh_setN l i x) -> y = x \/ In y l.
 Proof. apply hset_In. Qed.
 
 Lemma nthN_In {A} (l : list A) i x : nthN l i = Some x -> In x l.
@@ -80,21 +80,21 @@ Proof. unfold nthN. apply nth_error_In. Qed.
 (* insert: what a successful insertion does                                  *)
 (* ------------------------------------------------------------------------ *)
 Lemma insert_loop_ok fuel t k m h2 hval c t' :
-  insert_loop fuel t k m h2 hval = IOk c t' ->
-  nthN t c = Some None /\ t' = hsetN t c (Some k).
+  dh_insert_loop fuel t k m h2 hval = IOk c t' ->
+  nthN t c = Some None /\ t' = dh_setN t c (Some k).
 Proof.
-  revert hval; induction fuel as [|f IH]; intros hval; cbn [insert_loop]; [discriminate|].
-  destruct (nthN t (step m h2 hval)) as [[k0|]|] eqn:E; intros H.
+  revert hval; induction fuel as [|f IH]; intros hval; cbn [dh_insert_loop]; [discriminate|].
+  destruct (nthN t (dh_step m h2 hval)) as [[k0|]|] eqn:E; intros H.
   - eauto.
   - injection H as <- <-. auto.
   - discriminate.
 Qed.
 
 Lemma insert_ok t hk c t' :
-  insert t hk = IOk c t' ->
-  nthN t c = Some None /\ t' = hsetN t c (Some (hk_key hk)).
+  dh_insert t hk = IOk c t' ->
+  nthN t c = Some None /\ t' = dh_setN t c (Some (hk_key hk)).
 Proof.
-  unfold insert. destruct (nthN t (hk_h1 hk)) as [[k0|]|] eqn:E; intros H.
+  unfold dh_insert. destruct (nthN t (hk_h1 hk)) as [[k0|]|] eqn:E; intros H.
   - eapply insert_loop_ok; eauto.
   - injection H as <- <-. auto.
   - discriminate.
@@ -102,14 +102,14 @@ Qed.
 
 (* searching the key just inserted follows the insertion path *)
 Lemma insert_then_search_loop fuel t k m h2 hval c t' :
-  insert_loop fuel t k m h2 hval = IOk c t' ->
+  dh_insert_loop fuel t k m h2 hval = IOk c t' ->
   ~ In (Some k) t ->
-  search_loop fuel t' k m h2 hval = SFound c.
+  dh_search_loop fuel t' k m h2 hval = SFound c.
 Proof.
   intros H Hfresh. destruct (insert_loop_ok _ _ _ _ _ _ _ _ H) as [Hc ->].
-  revert hval H; induction fuel as [|f IH]; intros hval; cbn [insert_loop search_loop]; [discriminate|].
-  destruct (nthN t (step m h2 hval)) as [[k0|]|] eqn:E; intros H.
-  - assert (Hne : c <> step m h2 hval) by (intros ->; congruence).
+  revert hval H; induction fuel as [|f IH]; intros hval; cbn [dh_insert_loop dh_search_loop]; [discriminate|].
+  destruct (nthN t (dh_step m h2 hval)) as [[k0|]|] eqn:E; intros H.
+  - assert (Hne : c <> dh_step m h2 hval) by (intros ->; congruence).
     rewrite nthN_hsetN_neq, E by assumption.
     rewrite key_eqb_neq; [auto|].
     intros ->. apply Hfresh. eapply nthN_In; eauto.
@@ -119,12 +119,12 @@ Proof.
 Qed.
 
 Lemma insert_then_search t hk c t' :
-  insert t hk = IOk c t' ->
+  dh_insert t hk = IOk c t' ->
   ~ In (Some (hk_key hk)) t ->
-  search t' hk = SFound c.
+  dh_search t' hk = SFound c.
 Proof.
   intros H Hfresh. destruct (insert_ok _ _ _ _ H) as [Hc Ht'].
-  unfold insert in H. unfold search.
+  unfold dh_insert in H. unfold dh_search.
   destruct (nthN t (hk_h1 hk)) as [[k0|]|] eqn:E.
   - assert (Hne : c <> hk_h1 hk) by (intros ->; congruence).
     subst t'. rewrite nthN_hsetN_neq, E by assumption.
@@ -140,45 +140,45 @@ Qed.
 (* a successful search only walks through occupied cells: filling an empty cell
    (cells never become empty again) does not change its result *)
 Lemma search_loop_preserved fuel t q m h2 hval c c' x :
-  search_loop fuel t q m h2 hval = SFound c ->
+  dh_search_loop fuel t q m h2 hval = SFound c ->
   nthN t c' = Some None ->
-  search_loop fuel (hsetN t c' x) q m h2 hval = SFound c.
+  dh_search_loop fuel (dh_setN t c' x) q m h2 hval = SFound c.
 Proof.
-  intros H Hc'. revert hval H; induction fuel as [|f IH]; intros hval; cbn [search_loop]; [discriminate|].
-  destruct (nthN t (step m h2 hval)) as [[k0|]|] eqn:E; intros H; try discriminate.
-  assert (Hne : c' <> step m h2 hval) by (intros ->; congruence).
+  intros H Hc'. revert hval H; induction fuel as [|f IH]; intros hval; cbn [dh_search_loop]; [discriminate|].
+  destruct (nthN t (dh_step m h2 hval)) as [[k0|]|] eqn:E; intros H; try discriminate.
+  assert (Hne : c' <> dh_step m h2 hval) by (intros ->; congruence).
   rewrite nthN_hsetN_neq, E by assumption.
-  destruct (key_eqb k0 q); auto.
+  destruct (hbytes_eqb k0 q); auto.
 Qed.
 
 Lemma search_preserved t hq c c' x :
-  search t hq = SFound c ->
+  dh_search t hq = SFound c ->
   nthN t c' = Some None ->
-  search (hsetN t c' x) hq = SFound c.
+  dh_search (dh_setN t c' x) hq = SFound c.
 Proof.
-  unfold search. intros H Hc'.
+  unfold dh_search. intros H Hc'.
   destruct (nthN t (hk_h1 hq)) as [[k0|]|] eqn:E; try discriminate.
   assert (Hne : c' <> hk_h1 hq) by (intros ->; congruence).
   rewrite nthN_hsetN_neq, E by assumption.
-  destruct (key_eqb k0 (hk_key hq)); auto.
+  destruct (hbytes_eqb k0 (hk_key hq)); auto.
   rewrite hsetN_length, hsetN_lenN. apply search_loop_preserved; assumption.
 Qed.
 
 Lemma search_loop_found_sound fuel t q m h2 hval c :
-  search_loop fuel t q m h2 hval = SFound c -> nthN t c = Some (Some q).
+  dh_search_loop fuel t q m h2 hval = SFound c -> nthN t c = Some (Some q).
 Proof.
-  revert hval; induction fuel as [|f IH]; intros hval; cbn [search_loop]; [discriminate|].
-  destruct (nthN t (step m h2 hval)) as [[k0|]|] eqn:E; try discriminate.
-  destruct (key_eqb k0 q) eqn:K; [|apply IH].
+  revert hval; induction fuel as [|f IH]; intros hval; cbn [dh_search_loop]; [discriminate|].
+  destruct (nthN t (dh_step m h2 hval)) as [[k0|]|] eqn:E; try discriminate.
+  destruct (hbytes_eqb k0 q) eqn:K; [|apply IH].
   intros H; injection H as <-. apply key_eqb_eq in K. congruence.
 Qed.
 
 (* compare the stored key fully before accepting *)
 Lemma search_found_sound t hq c :
-  search t hq = SFound c -> nthN t c = Some (Some (hk_key hq)).
+  dh_search t hq = SFound c -> nthN t c = Some (Some (hk_key hq)).
 Proof.
-  unfold search. destruct (nthN t (hk_h1 hq)) as [[k0|]|] eqn:E; try discriminate.
-  destruct (key_eqb k0 (hk_key hq)) eqn:K; [|apply search_loop_found_sound].
+  unfold dh_search. destruct (nthN t (hk_h1 hq)) as [[k0|]|] eqn:E; try discriminate.
+  destruct (hbytes_eqb k0 (hk_key hq)) eqn:K; [|apply search_loop_found_sound].
   intros H; injection H as <-. apply key_eqb_eq in K. congruence.
 Qed.
 
@@ -186,28 +186,28 @@ Qed.
 (* Theorem 1: every inserted key is found, in the cell insert chose          *)
 (* ------------------------------------------------------------------------ *)
 Lemma insert_all_preserves ks : forall t t' cs hq c,
-  insert_all t ks = Some (t', cs) ->
-  search t hq = SFound c -> search t' hq = SFound c.
+  dh_insert_all t ks = Some (t', cs) ->
+  dh_search t hq = SFound c -> dh_search t' hq = SFound c.
 Proof.
-  induction ks as [|hk r IH]; intros t t' cs hq c; cbn [insert_all].
+  induction ks as [|hk r IH]; intros t t' cs hq c; cbn [dh_insert_all].
   - intros H; injection H as <- _. auto.
-  - destruct (insert t hk) as [c1 t1| |] eqn:E; try discriminate.
-    destruct (insert_all t1 r) as [[t2 cs2]|] eqn:E2; try discriminate.
+  - destruct (dh_insert t hk) as [c1 t1| |] eqn:E; try discriminate.
+    destruct (dh_insert_all t1 r) as [[t2 cs2]|] eqn:E2; try discriminate.
     intros H Hs; injection H as <- _.
     destruct (insert_ok _ _ _ _ E) as [Hc ->].
     eapply IH; eauto. apply search_preserved; assumption.
 Qed.
 
 Lemma insert_all_search ks : forall t t' cs,
-  insert_all t ks = Some (t', cs) ->
+  dh_insert_all t ks = Some (t', cs) ->
   NoDup (map hk_key ks) ->
   (forall hk, In hk ks -> ~ In (Some (hk_key hk)) t) ->
-  Forall2 (fun hk c => search t' hk = SFound c) ks cs.
+  Forall2 (fun hk c => dh_search t' hk = SFound c) ks cs.
 Proof.
-  induction ks as [|hk r IH]; intros t t' cs; cbn [insert_all].
+  induction ks as [|hk r IH]; intros t t' cs; cbn [dh_insert_all].
   - intros H _ _; injection H as _ <-. constructor.
-  - destruct (insert t hk) as [c1 t1| |] eqn:E; try discriminate.
-    destruct (insert_all t1 r) as [[t2 cs2]|] eqn:E2; try discriminate.
+  - destruct (dh_insert t hk) as [c1 t1| |] eqn:E; try discriminate.
+    destruct (dh_insert_all t1 r) as [[t2 cs2]|] eqn:E2; try discriminate.
     intros H Hnd Hfresh; injection H as <- <-.
     cbn [map] in Hnd. inversion Hnd as [|? ? Hnotin Hnd']; subst.
     constructor.
@@ -220,23 +220,23 @@ Proof.
       * eapply Hfresh; [right; eassumption|assumption].
 Qed.
 
-Lemma empty_table_In m x : In x (empty_table m) -> x = None.
-Proof. unfold empty_table. apply repeat_spec. Qed.
+Lemma empty_table_In m x : In x (dh_empty_table m) -> x = None.
+Proof. unfold dh_empty_table. apply repeat_spec. Qed.
 
-Lemma empty_table_lenN m : lenN (empty_table m) = m.
-Proof. unfold empty_table, lenN. rewrite repeat_length. lia. Qed.
+Lemma empty_table_lenN m : lenN (dh_empty_table m) = m.
+Proof. unfold dh_empty_table, lenN. rewrite repeat_length. lia. Qed.
 
 Lemma Forall2_imp {A B} (R1 R2 : A -> B -> Prop) l l' :
   (forall a b, R1 a b -> R2 a b) -> Forall2 R1 l l' -> Forall2 R2 l l'.
 Proof. intros H; induction 1; constructor; auto. Qed.
 
 Theorem dh_search_inserted m ks t cs :
-  build m ks = Some (t, cs) ->
+  dh_build m ks = Some (t, cs) ->
   NoDup (map hk_key ks) ->
-  Forall2 (fun hk c => search t hk = SFound c /\ nthN t c = Some (Some (hk_key hk))) ks cs.
+  Forall2 (fun hk c => dh_search t hk = SFound c /\ nthN t c = Some (Some (hk_key hk))) ks cs.
 Proof.
-  unfold build. intros H Hnd.
-  assert (F : Forall2 (fun hk c => search t hk = SFound c) ks cs).
+  unfold dh_build. intros H Hnd.
+  assert (F : Forall2 (fun hk c => dh_search t hk = SFound c) ks cs).
   { eapply insert_all_search; eauto. intros hk _ Hin. apply empty_table_In in Hin. discriminate. }
   revert F. apply Forall2_imp. intros hk c Hs. split; [assumption|]. apply search_found_sound; assumption.
 Qed.
@@ -249,9 +249,959 @@ Proof.
 Qed.
 
 Corollary dh_search_inserted_In m ks t cs hk :
-  build m ks = Some (t, cs) -> NoDup (map hk_key ks) -> In hk ks ->
-  exists c, In c cs /\ search t hk = SFound c /\ nthN t c = Some (Some (hk_key hk)).
+  dh_build m ks = Some (t, cs) -> NoDup (map hk_key ks) -> In hk ks ->
+  exists c, In c cs /\ dh_search t hk = SFound c /\ nthN t c = Some (Some (hk_key hk)).
 Proof.
   intros H Hnd Hin.
   destruct (Forall2_In_l _ _ _ _ (dh_search_inserted _ _ _ _ H Hnd) Hin) as [c [Hc [H1 H2]]]; eauto.
+Qed.
+
+(* ------------------------------------------------------------------------ *)
+(* Theorem 2: absent keys, termination, no out-of-bounds read                *)
+(* ------------------------------------------------------------------------ *)
+Lemma step_lt m h2 hval : 0 < m -> dh_step m h2 hval < m.
+Proof. unfold dh_step. intros H. apply N.mod_lt. lia. Qed.
+
+Lemma probe_mul_lt m h1 h2 i : 0 < m -> dh_probe_mul m h1 h2 i < m.
+Proof. unfold dh_probe_mul. intros H. apply N.mod_lt. lia. Qed.
+
+Lemma nthN_lt_not_None {A} (l : list A) i : i < lenN l -> nthN l i <> None.
+Proof. intros H E. destruct (nthN_lt_Some l i H) as [x Hx]. congruence. Qed.
+
+Lemma search_loop_no_oob fuel t q h2 hval :
+  0 < lenN t -> dh_search_loop fuel t q (lenN t) h2 hval <> SOob.
+Proof.
+  intros Hm. revert hval; induction fuel as [|f IH]; intros hval; cbn [dh_search_loop]; [discriminate|].
+  destruct (nthN t (dh_step (lenN t) h2 hval)) as [[k0|]|] eqn:E.
+  - destruct (hbytes_eqb k0 q); [discriminate|apply IH].
+  - discriminate.
+  - exfalso. revert E. apply nthN_lt_not_None. apply step_lt. assumption.
+Qed.
+
+Theorem dh_search_no_oob t q : hk_h1 q < lenN t -> dh_search t q <> SOob.
+Proof.
+  intros H. unfold dh_search.
+  destruct (nthN t (hk_h1 q)) as [[k0|]|] eqn:E.
+  - destruct (hbytes_eqb k0 (hk_key q)); [discriminate|]. apply search_loop_no_oob. lia.
+  - discriminate.
+  - exfalso. revert E. apply nthN_lt_not_None. assumption.
+Qed.
+
+Lemma search_mul_loop_no_oob fuel t q h1 h2 i :
+  0 < lenN t -> dh_search_mul_loop fuel t q (lenN t) h1 h2 i <> SOob.
+Proof.
+  intros Hm. revert i; induction fuel as [|f IH]; intros i; cbn [dh_search_mul_loop]; [discriminate|].
+  destruct (nthN t (dh_probe_mul (lenN t) h1 h2 i)) as [[k0|]|] eqn:E.
+  - destruct (hbytes_eqb k0 q); [discriminate|apply IH].
+  - discriminate.
+  - exfalso. revert E. apply nthN_lt_not_None. apply probe_mul_lt. assumption.
+Qed.
+
+Theorem dh_search_mul_no_oob t q : hk_h1 q < lenN t -> dh_search_mul t q <> SOob.
+Proof.
+  intros H. unfold dh_search_mul.
+  destruct (nthN t (hk_h1 q)) as [[k0|]|] eqn:E.
+  - destruct (hbytes_eqb k0 (hk_key q)); [discriminate|]. apply search_mul_loop_no_oob. lia.
+  - discriminate.
+  - exfalso. revert E. apply nthN_lt_not_None. assumption.
+Qed.
+
+Lemma insert_loop_no_oob fuel t k h2 hval :
+  0 < lenN t -> dh_insert_loop fuel t k (lenN t) h2 hval <> IOob.
+Proof.
+  intros Hm. revert hval; induction fuel as [|f IH]; intros hval; cbn [dh_insert_loop]; [discriminate|].
+  destruct (nthN t (dh_step (lenN t) h2 hval)) as [[k0|]|] eqn:E.
+  - apply IH.
+  - discriminate.
+  - exfalso. revert E. apply nthN_lt_not_None. apply step_lt. assumption.
+Qed.
+
+Theorem dh_insert_no_oob t hk : hk_h1 hk < lenN t -> dh_insert t hk <> IOob.
+Proof.
+  intros H. unfold dh_insert.
+  destruct (nthN t (hk_h1 hk)) as [[k0|]|] eqn:E.
+  - apply insert_loop_no_oob. lia.
+  - discriminate.
+  - exfalso. revert E. apply nthN_lt_not_None. assumption.
+Qed.
+
+(* a search result is Found only for a stored key; the loop is bounded by its fuel
+   (tsize - 1 further probes), so a key that is not stored gives SAbsent *)
+Lemma search_loop_absent fuel t q h2 hval :
+  0 < lenN t -> (forall k, In (Some k) t -> k <> q) ->
+  dh_search_loop fuel t q (lenN t) h2 hval = SAbsent.
+Proof.
+  intros Hm Hq. revert hval; induction fuel as [|f IH]; intros hval; cbn [dh_search_loop]; [reflexivity|].
+  destruct (nthN t (dh_step (lenN t) h2 hval)) as [[k0|]|] eqn:E.
+  - rewrite key_eqb_neq; [apply IH|]. apply Hq. eapply nthN_In; eauto.
+  - reflexivity.
+  - exfalso. revert E. apply nthN_lt_not_None. apply step_lt. assumption.
+Qed.
+
+Theorem dh_search_absent_table t q :
+  hk_h1 q < lenN t -> (forall k, In (Some k) t -> k <> hk_key q) -> dh_search t q = SAbsent.
+Proof.
+  intros H Hq. unfold dh_search.
+  destruct (nthN t (hk_h1 q)) as [[k0|]|] eqn:E.
+  - rewrite key_eqb_neq; [apply search_loop_absent; [lia|assumption]|]. apply Hq. eapply nthN_In; eauto.
+  - reflexivity.
+  - exfalso. revert E. apply nthN_lt_not_None. assumption.
+Qed.
+
+Lemma search_mul_loop_absent fuel t q h1 h2 i :
+  0 < lenN t -> (forall k, In (Some k) t -> k <> q) ->
+  dh_search_mul_loop fuel t q (lenN t) h1 h2 i = SAbsent.
+Proof.
+  intros Hm Hq. revert i; induction fuel as [|f IH]; intros i; cbn [dh_search_mul_loop]; [reflexivity|].
+  destruct (nthN t (dh_probe_mul (lenN t) h1 h2 i)) as [[k0|]|] eqn:E.
+  - rewrite key_eqb_neq; [apply IH|]. apply Hq. eapply nthN_In; eauto.
+  - reflexivity.
+  - exfalso. revert E. apply nthN_lt_not_None. apply probe_mul_lt. assumption.
+Qed.
+
+Theorem dh_search_mul_absent_table t q :
+  hk_h1 q < lenN t -> (forall k, In (Some k) t -> k <> hk_key q) -> dh_search_mul t q = SAbsent.
+Proof.
+  intros H Hq. unfold dh_search_mul.
+  destruct (nthN t (hk_h1 q)) as [[k0|]|] eqn:E.
+  - rewrite key_eqb_neq; [apply search_mul_loop_absent; [lia|assumption]|]. apply Hq. eapply nthN_In; eauto.
+  - reflexivity.
+  - exfalso. revert E. apply nthN_lt_not_None. assumption.
+Qed.
+
+(* what is stored in a built table *)
+Lemma insert_all_lenN ks : forall t t' cs, dh_insert_all t ks = Some (t', cs) -> lenN t' = lenN t.
+Proof.
+  induction ks as [|hk r IH]; intros t t' cs; cbn [dh_insert_all].
+  - intros H; injection H as <- _. reflexivity.
+  - destruct (dh_insert t hk) as [c1 t1| |] eqn:E; try discriminate.
+    destruct (dh_insert_all t1 r) as [[t2 cs2]|] eqn:E2; try discriminate.
+    intros H; injection H as <- _.
+    destruct (insert_ok _ _ _ _ E) as [_ ->]. rewrite (IH _ _ _ E2). apply hsetN_lenN.
+Qed.
+
+Lemma insert_all_stored ks : forall t t' cs k,
+  dh_insert_all t ks = Some (t', cs) -> In (Some k) t' -> In (Some k) t \/ In k (map hk_key ks).
+Proof.
+  induction ks as [|hk r IH]; intros t t' cs k; cbn [dh_insert_all].
+  - intros H; injection H as <- _. auto.
+  - destruct (dh_insert t hk) as [c1 t1| |] eqn:E; try discriminate.
+    destruct (dh_insert_all t1 r) as [[t2 cs2]|] eqn:E2; try discriminate.
+    intros H Hin; injection H as <- _.
+    destruct (IH _ _ _ _ E2 Hin) as [H1|H1]; [|right; right; assumption].
+    destruct (insert_ok _ _ _ _ E) as [_ ->].
+    apply hsetN_In in H1 as [H1|H1]; [|auto].
+    injection H1 as ->. right; left; reflexivity.
+Qed.
+
+Lemma build_lenN m ks t cs : dh_build m ks = Some (t, cs) -> lenN t = m.
+Proof. unfold dh_build. intros H. rewrite (insert_all_lenN _ _ _ _ H). apply empty_table_lenN. Qed.
+
+Lemma build_stored m ks t cs k : dh_build m ks = Some (t, cs) -> In (Some k) t -> In k (map hk_key ks).
+Proof.
+  unfold dh_build. intros H Hin. destruct (insert_all_stored _ _ _ _ _ H Hin) as [H1|H1]; [|assumption].
+  apply empty_table_In in H1. discriminate.
+Qed.
+
+Theorem dh_search_absent m ks t cs q :
+  dh_build m ks = Some (t, cs) ->
+  ~ In (hk_key q) (map hk_key ks) -> hk_h1 q < m ->
+  dh_search t q = SAbsent /\ dh_search_mul t q = SAbsent.
+Proof.
+  intros H Hq Hh. pose proof (build_lenN _ _ _ _ H) as Hl.
+  assert (Hs : forall k, In (Some k) t -> k <> hk_key q).
+  { intros k Hin ->. apply Hq. eapply build_stored; eauto. }
+  split; [apply dh_search_absent_table|apply dh_search_mul_absent_table]; auto; lia.
+Qed.
+
+(* ------------------------------------------------------------------------ *)
+(* the multiplicative probe (hval + i*h2) % tsize of Hashdh::search and of    *)
+(* the dictionaries' locate equals the iterative one while nothing wraps      *)
+(* ------------------------------------------------------------------------ *)
+Lemma wrap64_small x : x < 2 ^ 64 -> dh_wrap64 x = x.
+Proof. unfold dh_wrap64. apply N.mod_small. Qed.
+
+Lemma step_closed m h1 h2 i :
+  0 < m -> m <= 2 ^ 63 -> h2 < m ->
+  dh_step m h2 ((h1 + i * h2) mod m) = (h1 + (i + 1) * h2) mod m.
+Proof.
+  intros Hm Hm63 Hh2. unfold dh_step.
+  assert (Hlt : (h1 + i * h2) mod m < m) by (apply N.mod_lt; lia).
+  rewrite wrap64_small.
+  - rewrite N.add_mod_idemp_l by lia. f_equal. lia.
+  - change (2 ^ 64) with (2 ^ 63 + 2 ^ 63). lia.
+Qed.
+
+Lemma probe_mul_closed m h1 h2 i :
+  m < 2 ^ 32 -> h1 < m -> h2 < m -> i <= m ->
+  dh_probe_mul m h1 h2 i = (h1 + i * h2) mod m.
+Proof.
+  intros Hm Hh1 Hh2 Hi. unfold dh_probe_mul.
+  assert (Hb : i * h2 <= (2 ^ 32 - 1) * (2 ^ 32 - 1)) by (apply N.mul_le_mono; lia).
+  change ((2 ^ 32 - 1) * (2 ^ 32 - 1)) with 18446744065119617025 in Hb.
+  change (2 ^ 32) with 4294967296 in Hm.
+  rewrite (wrap64_small (i * h2)) by (change (2 ^ 64) with 18446744073709551616; lia).
+  rewrite wrap64_small by (change (2 ^ 64) with 18446744073709551616; lia).
+  reflexivity.
+Qed.
+
+Lemma search_mul_loop_eq fuel t q m h1 h2 : forall i,
+  m < 2 ^ 32 -> h1 < m -> h2 < m -> i + N.of_nat fuel < m ->
+  dh_search_mul_loop fuel t q m h1 h2 (i + 1) = dh_search_loop fuel t q m h2 ((h1 + i * h2) mod m).
+Proof.
+  induction fuel as [|f IH]; intros i Hm Hh1 Hh2 Hi; cbn [dh_search_mul_loop dh_search_loop]; [reflexivity|].
+  assert (Hm63 : m <= 2 ^ 63) by (change (2 ^ 32) with 4294967296 in Hm; change (2 ^ 63) with 9223372036854775808; lia).
+  rewrite step_closed by (assumption || lia).
+  rewrite probe_mul_closed by (assumption || lia).
+  destruct (nthN t ((h1 + (i + 1) * h2) mod m)) as [[k0|]|]; try reflexivity.
+  destruct (hbytes_eqb k0 q); [reflexivity|].
+  apply IH; auto. lia.
+Qed.
+
+Theorem search_mul_eq t q :
+  lenN t < 2 ^ 32 -> hk_h1 q < lenN t -> hk_h2 q < lenN t ->
+  dh_search_mul t q = dh_search t q.
+Proof.
+  intros Hm Hh1 Hh2. unfold dh_search_mul, dh_search.
+  destruct (nthN t (hk_h1 q)) as [[k0|]|]; try reflexivity.
+  destruct (hbytes_eqb k0 (hk_key q)); [reflexivity|].
+  replace (hk_h1 q) with ((hk_h1 q + 0 * hk_h2 q) mod lenN t) at 2
+    by (rewrite N.mul_0_l, N.add_0_r; apply N.mod_small; assumption).
+  change 1 with (0 + 1) at 1.
+  apply search_mul_loop_eq; auto. unfold lenN in *. lia.
+Qed.
+
+(* ------------------------------------------------------------------------ *)
+(* coprimality: the probe sequence visits every cell                          *)
+(* ------------------------------------------------------------------------ *)
+Definition prime (r : N) : Prop := 1 < r /\ forall d, 1 < d < r -> r mod d <> 0.
+
+Lemma prime_coprime m h2 : prime m -> 1 <= h2 < m -> N.gcd h2 m = 1.
+Proof.
+  intros [Hm Hp] Hh.
+  pose proof (N.gcd_divide_l h2 m) as Hl. pose proof (N.gcd_divide_r h2 m) as Hr.
+  set (g := N.gcd h2 m) in *.
+  assert (Hg0 : g <> 0).
+  { intros E. destruct Hr as [z Hz]. rewrite E in Hz. lia. }
+  assert (Hgle : g <= h2) by (apply N.divide_pos_le; [lia|assumption]).
+  destruct (N.eq_dec g 1) as [|Hg1]; [assumption|].
+  exfalso. apply (Hp g); [lia|]. apply N.mod_divide; assumption.
+Qed.
+
+Theorem probe_visits_all m h1 h2 c :
+  0 < m -> N.gcd h2 m = 1 -> h1 < m -> c < m ->
+  exists i, i < m /\ (h1 + i * h2) mod m = c.
+Proof.
+  intros Hm Hg Hh1 Hc.
+  destruct (N.eq_dec h2 0) as [->|Hh2].
+  - rewrite N.gcd_0_l in Hg. subst m. exists 0. split; [lia|].
+    assert (c = 0) by lia. subst c. apply N.mod_1_r.
+  - destruct (N.gcd_bezout_pos h2 m) as [a [b Hab]]; [lia|]. rewrite Hg in Hab.
+    set (d := c + m - h1).
+    exists ((d * a) mod m). split; [apply N.mod_lt; lia|].
+    rewrite <- N.add_mod_idemp_r by lia.
+    rewrite N.mul_mod_idemp_l by lia.
+    rewrite N.add_mod_idemp_r by lia.
+    replace (h1 + d * a * h2) with (c + (1 + d * b) * m).
+    + rewrite N.mod_add by lia. apply N.mod_small. assumption.
+    + rewrite <- N.mul_assoc, Hab. unfold d. nia.
+Qed.
+
+(* if insertion reports "table full" every probed cell was occupied ... *)
+Lemma insert_loop_full fuel t k m h1 h2 : forall j,
+  0 < m -> m <= 2 ^ 63 -> h2 < m ->
+  dh_insert_loop fuel t k m h2 ((h1 + j * h2) mod m) = IFull ->
+  forall i, j < i <= j + N.of_nat fuel -> exists k0, nthN t ((h1 + i * h2) mod m) = Some (Some k0).
+Proof.
+  induction fuel as [|f IH]; intros j Hm Hm63 Hh2; cbn [dh_insert_loop]; [intros _ i Hi; lia|].
+  rewrite step_closed by assumption.
+  destruct (nthN t ((h1 + (j + 1) * h2) mod m)) as [[k0|]|] eqn:E; try discriminate.
+  intros H i Hi. destruct (N.eq_dec i (j + 1)) as [->|Hne]; [eauto|].
+  apply (IH (j + 1)); auto. lia.
+Qed.
+
+(* ... and these are all the cells of the table *)
+Lemma insert_full_all t hk :
+  lenN t <= 2 ^ 63 -> hk_h1 hk < lenN t -> hk_h2 hk < lenN t -> N.gcd (hk_h2 hk) (lenN t) = 1 ->
+  dh_insert t hk = IFull ->
+  forall c, c < lenN t -> exists k0, nthN t c = Some (Some k0).
+Proof.
+  intros Hm63 Hh1 Hh2 Hg. unfold dh_insert.
+  destruct (nthN t (hk_h1 hk)) as [[k0|]|] eqn:E; try discriminate.
+  intros H c Hc.
+  destruct (probe_visits_all (lenN t) (hk_h1 hk) (hk_h2 hk) c) as [i [Hi Hic]]; try assumption; [lia|].
+  destruct (N.eq_dec i 0) as [->|Hi0].
+  - rewrite N.mul_0_l, N.add_0_r, N.mod_small in Hic by assumption. subst c. eauto.
+  - rewrite <- Hic.
+    apply (insert_loop_full (Nat.pred (length t)) t (hk_key hk) (lenN t) (hk_h1 hk) (hk_h2 hk) 0);
+      try assumption; try lia.
+    + rewrite N.mul_0_l, N.add_0_r, N.mod_small by assumption. assumption.
+    + unfold lenN in *. lia.
+Qed.
+
+Lemma hk_ok_spec m hk :
+  hk_ok m hk = true -> hk_h1 hk < m /\ hk_h2 hk < m /\ N.gcd (hk_h2 hk) m = 1.
+Proof.
+  unfold hk_ok. rewrite !andb_true_iff, !N.ltb_lt, N.eqb_eq. tauto.
+Qed.
+
+Theorem dh_insert_one_succeeds t hk :
+  lenN t <= 2 ^ 63 -> hk_ok (lenN t) hk = true ->
+  (exists c, nthN t c = Some None) ->
+  exists c t', dh_insert t hk = IOk c t'.
+Proof.
+  intros Hm63 Hok [c0 Hc0]. apply hk_ok_spec in Hok as [Hh1 [Hh2 Hg]].
+  destruct (dh_insert t hk) as [c t'| |] eqn:E; [eauto| |].
+  - exfalso. destruct (insert_full_all t hk Hm63 Hh1 Hh2 Hg E c0) as [k0 Hk0];
+      [eapply nthN_Some_lt; eauto|congruence].
+  - exfalso. revert E. apply dh_insert_no_oob. assumption.
+Qed.
+
+(* ---- Tdict* and the number of occupied cells ------------------------------ *)
+Lemma tdict_hset t : forall c k,
+  nth_error t c = Some None -> Permutation (dh_tdict (dh_set t c (Some k))) (k :: dh_tdict t).
+Proof.
+  induction t as [|a r IH]; intros [|c] k; cbn [nth_error dh_set dh_tdict]; try discriminate.
+  - intros H; injection H as ->. reflexivity.
+  - intros H. destruct a as [k0|]; cbn [dh_tdict].
+    + rewrite (IH _ _ H). apply perm_swap.
+    + apply IH; assumption.
+Qed.
+
+Lemma tdict_hsetN t c k :
+  nthN t c = Some None -> Permutation (dh_tdict (dh_setN t c (Some k))) (k :: dh_tdict t).
+Proof. apply tdict_hset. Qed.
+
+Lemma tdict_In t k : In k (dh_tdict t) <-> In (Some k) t.
+Proof.
+  induction t as [|a r IH]; cbn [dh_tdict In]; [tauto|].
+  destruct a as [k0|]; cbn [In]; rewrite IH.
+  - split; (intros [H|H]; [left; congruence|right; assumption]).
+  - split; [auto|]. intros [H|H]; [discriminate|assumption].
+Qed.
+
+Lemma tdict_length_le t : (length (dh_tdict t) <= length t)%nat.
+Proof. induction t as [|[k0|] r IH]; cbn [dh_tdict length]; lia. Qed.
+
+Lemma exists_empty_nat t :
+  (length (dh_tdict t) < length t)%nat -> exists c, nth_error t c = Some None.
+Proof.
+  induction t as [|[k0|] r IH]; cbn [dh_tdict length]; intros H; [lia| |].
+  - destruct IH as [c Hc]; [lia|]. exists (S c). assumption.
+  - exists O. reflexivity.
+Qed.
+
+Lemma exists_empty t :
+  (length (dh_tdict t) < length t)%nat -> exists c, nthN t c = Some None.
+Proof.
+  intros H. destruct (exists_empty_nat t H) as [c Hc]. exists (N.of_nat c).
+  unfold nthN. rewrite Nat2N.id. assumption.
+Qed.
+
+Lemma insert_all_succeeds ks : forall t,
+  lenN t <= 2 ^ 63 ->
+  Forall (fun hk => hk_ok (lenN t) hk = true) ks ->
+  (length (dh_tdict t) + length ks <= length t)%nat ->
+  exists t' cs, dh_insert_all t ks = Some (t', cs).
+Proof.
+  induction ks as [|hk r IH]; intros t Hm63 Hok Hlen; cbn [dh_insert_all]; [eauto|].
+  inversion Hok as [|? ? Hhk Hr]; subst. cbn [length] in Hlen.
+  destruct (dh_insert_one_succeeds t hk Hm63 Hhk) as [c [t1 E]]; [apply exists_empty; lia|].
+  rewrite E. destruct (insert_ok _ _ _ _ E) as [Hc Ht1].
+  destruct (IH t1) as [t' [cs E']].
+  - subst t1. rewrite hsetN_lenN. assumption.
+  - subst t1. rewrite hsetN_lenN. assumption.
+  - subst t1. rewrite hsetN_length. rewrite (Permutation_length (tdict_hsetN _ _ _ Hc)). cbn [length]. lia.
+  - rewrite E'. eauto.
+Qed.
+
+Lemma tdict_empty m : dh_tdict (dh_empty_table m) = [].
+Proof. unfold dh_empty_table. induction (N.to_nat m) as [|n IH]; cbn [repeat dh_tdict]; auto. Qed.
+
+(* the condition the C++ guarantees: tsize = nearest_prime(hash_size) >= elements, tsize prime
+   (or 1), h1 = bitwisehash < tsize, h2 = step_value in [1, tsize) (0 when tsize = 1) *)
+Theorem dh_insert_succeeds m ks :
+  m <= 2 ^ 63 -> lenN ks <= m -> Forall (fun hk => hk_ok m hk = true) ks ->
+  exists t cs, dh_build m ks = Some (t, cs).
+Proof.
+  intros Hm63 Hlen Hok. unfold dh_build. apply insert_all_succeeds.
+  - rewrite empty_table_lenN. assumption.
+  - rewrite empty_table_lenN. assumption.
+  - rewrite tdict_empty. unfold dh_empty_table. rewrite repeat_length. unfold lenN in Hlen. cbn [length]. lia.
+Qed.
+
+Lemma prime_hk_ok m k h1 h2 :
+  prime m -> h1 < m -> 1 <= h2 < m -> hk_ok m (mkHKey k h1 h2) = true.
+Proof.
+  intros Hp Hh1 Hh2. unfold hk_ok. cbn [hk_h1 hk_h2].
+  rewrite (prime_coprime m h2 Hp Hh2), N.eqb_refl.
+  destruct (N.ltb_spec h1 m); [|lia]. destruct (N.ltb_spec h2 m); [|lia]. reflexivity.
+Qed.
+
+Lemma one_hk_ok k : hk_ok 1 (mkHKey k 0 0) = true.
+Proof. reflexivity. Qed.
+
+(* ------------------------------------------------------------------------ *)
+(* Theorem 3: IDs.  ID = b_ht->rank1(cell); the ID-th string of Tdict* is the *)
+(* key stored in that cell                                                    *)
+(* ------------------------------------------------------------------------ *)
+Lemma rank_tdict t : forall c k,
+  nth_error t c = Some (Some k) ->
+  1 <= dh_count1 (firstn (S c) (dh_bits_of t)) /\
+  nthN (dh_tdict t) (dh_count1 (firstn (S c) (dh_bits_of t)) - 1) = Some k.
+Proof.
+  induction t as [|a r IH]; intros [|c] k; cbn [nth_error]; try discriminate.
+  - intros H; injection H as ->. cbn [dh_bits_of map dh_is_occ firstn dh_count1 dh_tdict].
+    split; [lia|]. reflexivity.
+  - intros H. destruct (IH _ _ H) as [H1 H2]. unfold dh_bits_of in *.
+    cbn [map]. rewrite firstn_cons. cbn [dh_count1].
+    set (rk := dh_count1 (firstn (S c) (map dh_is_occ r))) in *.
+    destruct a as [k0|]; cbn [dh_is_occ dh_tdict].
+    + split; [lia|]. unfold nthN in *.
+      replace (N.to_nat (1 + rk - 1)) with (S (N.to_nat (rk - 1))) by lia. cbn [nth_error]. assumption.
+    + rewrite N.add_0_l. auto.
+Qed.
+
+Lemma id_of_cell_spec t c k :
+  nthN t c = Some (Some k) ->
+  1 <= dh_id_of_cell t c <= lenN (dh_tdict t) /\ nthN (dh_tdict t) (dh_id_of_cell t c - 1) = Some k.
+Proof.
+  intros H. unfold dh_id_of_cell, dh_rank1. destruct (rank_tdict t (N.to_nat c) k H) as [H1 H2].
+  split; [|assumption]. split; [assumption|].
+  apply nthN_Some_lt in H2. lia.
+Qed.
+
+(* the DAC/RP variants compare with the rank1(cell)-th string of Tdict*: the same key *)
+Lemma stored_via_rank_eq t c k : nthN t c = Some (Some k) -> dh_stored_via_rank t c = Some k.
+Proof. intros H. unfold dh_stored_via_rank. apply id_of_cell_spec; assumption. Qed.
+
+Lemma extract_id_of_cell t c k : nthN t c = Some (Some k) -> dh_extract t (dh_id_of_cell t c) = Some k.
+Proof.
+  intros H. destruct (id_of_cell_spec t c k H) as [[H1 H2] H3]. unfold dh_extract.
+  destruct (N.ltb_spec 0 (dh_id_of_cell t c)); [|lia].
+  destruct (N.leb_spec (dh_id_of_cell t c) (lenN (dh_tdict t))); [|lia]. assumption.
+Qed.
+
+Lemma extract_bad_id t id : ~ (1 <= id <= lenN (dh_tdict t)) -> dh_extract t id = None.
+Proof.
+  intros H. unfold dh_extract.
+  destruct (N.ltb_spec 0 id); [|reflexivity].
+  destruct (N.leb_spec id (lenN (dh_tdict t))); [lia|reflexivity].
+Qed.
+
+Lemma insert_all_tdict_perm ks : forall t t' cs,
+  dh_insert_all t ks = Some (t', cs) -> Permutation (dh_tdict t') (map hk_key ks ++ dh_tdict t).
+Proof.
+  induction ks as [|hk r IH]; intros t t' cs; cbn [dh_insert_all map app].
+  - intros H; injection H as <- _. reflexivity.
+  - destruct (dh_insert t hk) as [c1 t1| |] eqn:E; try discriminate.
+    destruct (dh_insert_all t1 r) as [[t2 cs2]|] eqn:E2; try discriminate.
+    intros H; injection H as <- _.
+    destruct (insert_ok _ _ _ _ E) as [Hc ->].
+    rewrite (IH _ _ _ E2). rewrite (tdict_hsetN _ _ _ Hc).
+    symmetry. apply Permutation_middle.
+Qed.
+
+Lemma build_tdict_perm m ks t cs : dh_build m ks = Some (t, cs) -> Permutation (dh_tdict t) (map hk_key ks).
+Proof.
+  unfold dh_build. intros H. rewrite (insert_all_tdict_perm _ _ _ _ H), tdict_empty, app_nil_r. reflexivity.
+Qed.
+
+Lemma build_elements m ks t cs : dh_build m ks = Some (t, cs) -> lenN (dh_tdict t) = lenN ks.
+Proof.
+  intros H. unfold lenN. rewrite (Permutation_length (build_tdict_perm _ _ _ _ H)), map_length. reflexivity.
+Qed.
+
+Theorem dh_id_bijection m ks t cs :
+  dh_build m ks = Some (t, cs) ->
+  NoDup (map hk_key ks) ->
+  (* number of stored strings *)
+  lenN (dh_tdict t) = lenN ks /\
+  (* the ID of an inserted key is the rank of the cell insert chose; extract inverts locate *)
+  Forall2 (fun hk c => dh_locate t hk = Some (dh_id_of_cell t c) /\
+                       1 <= dh_id_of_cell t c <= lenN ks /\
+                       dh_extract t (dh_id_of_cell t c) = Some (hk_key hk)) ks cs /\
+  (* every ID in [1,n] belongs to exactly one inserted key; locate inverts extract *)
+  (forall id, 1 <= id <= lenN ks ->
+     exists hk, In hk ks /\ dh_extract t id = Some (hk_key hk) /\ dh_locate t hk = Some id) /\
+  (* injectivity *)
+  (forall hk hk' id, In hk ks -> In hk' ks -> dh_locate t hk = Some id -> dh_locate t hk' = Some id ->
+     hk_key hk = hk_key hk') /\
+  (* IDs outside [1,n] give NULL *)
+  (forall id, ~ (1 <= id <= lenN ks) -> dh_extract t id = None).
+Proof.
+  intros H Hnd.
+  pose proof (build_elements _ _ _ _ H) as Hn.
+  pose proof (dh_search_inserted _ _ _ _ H Hnd) as F.
+  assert (F2 : Forall2 (fun hk c => dh_locate t hk = Some (dh_id_of_cell t c) /\
+                       1 <= dh_id_of_cell t c <= lenN ks /\
+                       dh_extract t (dh_id_of_cell t c) = Some (hk_key hk)) ks cs).
+  { revert F. apply Forall2_imp. intros hk c [Hs Hc]. unfold dh_locate. rewrite Hs.
+    split; [reflexivity|]. split; [|apply extract_id_of_cell; assumption].
+    rewrite <- Hn. apply (id_of_cell_spec t c (hk_key hk)); assumption. }
+  assert (Hndt : NoDup (dh_tdict t)).
+  { eapply Permutation_NoDup; [symmetry; eapply build_tdict_perm; eauto|assumption]. }
+  assert (Hinj : forall id id' k, 1 <= id <= lenN ks -> 1 <= id' <= lenN ks ->
+                   dh_extract t id = Some k -> dh_extract t id' = Some k -> id = id').
+  { intros id id' k Hid Hid'. unfold dh_extract. rewrite Hn.
+    destruct (N.ltb_spec 0 id); [|lia]. destruct (N.ltb_spec 0 id'); [|lia].
+    destruct (N.leb_spec id (lenN ks)); [|lia]. destruct (N.leb_spec id' (lenN ks)); [|lia].
+    cbn [andb]. unfold nthN. intros E1 E2.
+    assert (N.to_nat (id - 1) = N.to_nat (id' - 1)).
+    { apply (proj1 (NoDup_nth_error (dh_tdict t)) Hndt); [|congruence].
+      apply nth_error_Some. congruence. }
+    lia. }
+  split; [assumption|]. split; [assumption|]. split; [|split].
+  - intros id Hid.
+    assert (Hex : exists k, nthN (dh_tdict t) (id - 1) = Some k).
+    { apply nthN_lt_Some. lia. }
+    destruct Hex as [k Hk].
+    assert (Hin : In k (map hk_key ks)).
+    { eapply Permutation_in; [eapply build_tdict_perm; eauto|]. eapply nthN_In; eauto. }
+    apply in_map_iff in Hin as [hk [Hkey Hin]]. exists hk. split; [assumption|].
+    assert (Hext : dh_extract t id = Some (hk_key hk)).
+    { unfold dh_extract. rewrite Hn. destruct (N.ltb_spec 0 id); [|lia].
+      destruct (N.leb_spec id (lenN ks)); [|lia]. cbn [andb]. congruence. }
+    split; [assumption|].
+    destruct (Forall2_In_l _ _ _ _ F2 Hin) as [c [_ [Hl [Hr He]]]].
+    rewrite Hl. f_equal. eapply Hinj; eauto.
+  - intros hk hk' id Hin Hin' Hl Hl'.
+    destruct (Forall2_In_l _ _ _ _ F2 Hin) as [c [_ [Hl1 [_ He1]]]].
+    destruct (Forall2_In_l _ _ _ _ F2 Hin') as [c' [_ [Hl2 [_ He2]]]].
+    assert (dh_id_of_cell t c = id) by congruence. assert (dh_id_of_cell t c' = id) by congruence.
+    congruence.
+  - intros id Hid. apply extract_bad_id. rewrite Hn. assumption.
+Qed.
+
+(* ------------------------------------------------------------------------ *)
+(* Theorem 5: nearest_prime                                                   *)
+(* ------------------------------------------------------------------------ *)
+Definition np_inv (p s n : N) (st : N * bool) : Prop :=
+  3 <= fst st /\ fst st mod 2 = 1 /\
+  (snd st = false ->
+     fst st = 3 + 2 * n /\ forall j, 3 <= j < fst st -> j mod 2 = 1 -> p mod j <> 0) /\
+  (snd st = true ->
+     (s <= fst st /\ forall j, 3 <= j < s -> j mod 2 = 1 -> p mod j <> 0) \/
+     (fst st < s /\ p mod fst st = 0)).
+
+Lemma np_inv_step p s n st : np_inv p s n st -> np_inv p s (N.succ n) (np_inner_step p s st).
+Proof.
+  destruct st as [i stop]. unfold np_inv, np_inner_step. cbn [fst snd].
+  intros [H3 [Hodd [Hf Ht]]].
+  destruct stop.
+  - cbn [fst snd]. split; [assumption|]. split; [assumption|]. split; [discriminate|]. assumption.
+  - destruct (Hf eq_refl) as [Hi Hall]. clear Hf Ht.
+    destruct (N.ltb_spec i s) as [Hlt|Hge].
+    + destruct (N.eqb_spec (p mod i) 0) as [Hz|Hnz]; cbn [fst snd].
+      * split; [assumption|]. split; [assumption|]. split; [discriminate|]. intros _. right. split; assumption.
+      * split; [lia|]. split; [lia|]. split; [|discriminate]. intros _. split; [lia|].
+        intros j Hj Hjodd.
+        destruct (N.lt_ge_cases j i) as [Hji|Hji]; [apply Hall; [lia|assumption]|].
+        assert (j = i) by lia. subst j. assumption.
+    + cbn [fst snd]. split; [assumption|]. split; [assumption|]. split; [discriminate|].
+      intros _. left. split; [assumption|].
+      intros j Hj Hjodd. apply Hall; [lia|assumption].
+Qed.
+
+Lemma np_inner_spec p s :
+  let i := np_inner p s in
+  3 <= i /\
+  ((s <= i /\ forall j, 3 <= j < s -> j mod 2 = 1 -> p mod j <> 0) \/ (i < s /\ p mod i = 0)).
+Proof.
+  unfold np_inner.
+  assert (H : np_inv p s s (N.iter s (np_inner_step p s) (3, false))).
+  { apply (N.iter_ind _ (np_inner_step p s) (3, false) (np_inv p s)).
+    - unfold np_inv. cbn [fst snd]. split; [lia|]. split; [reflexivity|]. split; [|discriminate].
+      intros _. split; [reflexivity|]. intros j Hj. lia.
+    - intros n a. apply np_inv_step. }
+  destruct (N.iter s (np_inner_step p s) (3, false)) as [i stop].
+  unfold np_inv in H. cbn [fst snd] in *. destruct H as [H3 [Hodd [Hf Ht]]].
+  split; [assumption|].
+  destruct stop; [auto|]. destruct (Hf eq_refl) as [Hi Hall]. left. split; [lia|].
+  intros j Hj. apply Hall. lia.
+Qed.
+
+Lemma no_small_factor p :
+  p mod 2 = 1 ->
+  (forall j, 3 <= j < N.sqrt p + 1 -> j mod 2 = 1 -> p mod j <> 0) ->
+  forall a b, p = a * b -> 1 < a -> a <= b -> False.
+Proof.
+  intros Hodd Hall a b Hp Ha Hab.
+  assert (Hsq : a <= N.sqrt p).
+  { apply N.sqrt_le_square. rewrite Hp. apply N.mul_le_mono_l. assumption. }
+  assert (Haodd : a mod 2 = 1).
+  { destruct (N.eq_dec (a mod 2) 1) as [|Hne]; [assumption|exfalso].
+    assert (Ha2 : a = 2 * (a / 2)) by lia.
+    assert (Hp2 : p = (a / 2 * b) * 2) by (rewrite Hp; rewrite Ha2 at 1; lia).
+    rewrite Hp2, N.mod_mul in Hodd by lia. discriminate. }
+  apply (Hall a); [lia|assumption|].
+  rewrite Hp, N.mul_comm. apply N.mod_mul. lia.
+Qed.
+
+Lemma odd_no_factor_prime p :
+  p mod 2 = 1 ->
+  (forall j, 3 <= j < N.sqrt p + 1 -> j mod 2 = 1 -> p mod j <> 0) ->
+  p = 1 \/ prime p.
+Proof.
+  intros Hodd Hall. destruct (N.eq_dec p 1) as [|Hp1]; [left; assumption|right].
+  assert (Hp : 1 < p) by lia.
+  split; [assumption|]. intros d Hd Hmod.
+  assert (Hpd : p = d * (p / d)) by (apply N.div_exact; [lia|assumption]).
+  set (e := p / d) in *.
+  assert (He : 1 < e).
+  { destruct (N.lt_ge_cases 1 e) as [|Hle]; [assumption|exfalso].
+    assert (Hcases : e = 0 \/ e = 1) by lia. destruct Hcases as [E|E]; rewrite E in Hpd; lia. }
+  destruct (N.le_ge_cases d e) as [Hde|Hed].
+  - apply (no_small_factor p Hodd Hall d e); [assumption|lia|assumption].
+  - apply (no_small_factor p Hodd Hall e d); [rewrite N.mul_comm; assumption|assumption|assumption].
+Qed.
+
+Lemma nearest_prime_loop_spec fuel : forall p0 r,
+  nearest_prime_loop fuel p0 = Some r ->
+  p0 <= r /\ r mod 2 = 1 /\
+  (forall j, 3 <= j < N.sqrt r + 1 -> j mod 2 = 1 -> r mod j <> 0).
+Proof.
+  induction fuel as [|f IH]; intros p0 r; cbn [nearest_prime_loop]; [discriminate|].
+  destruct (N.eqb_spec (p0 mod 2) 0) as [Hev|Hodd]; cbn [negb].
+  - intros H. destruct (IH _ _ H) as [H1 H2]. split; [lia|assumption].
+  - destruct (np_inner_spec p0 (N.sqrt p0 + 1)) as [_ Hsp].
+    destruct (N.leb_spec (N.sqrt p0 + 1) (np_inner p0 (N.sqrt p0 + 1))) as [Hle|Hgt].
+    + intros H; injection H as <-. split; [lia|]. split; [lia|].
+      destruct Hsp as [[_ Hall]|[Hlt _]]; [assumption|lia].
+    + intros H. destruct (IH _ _ H) as [H1 H2]. split; [lia|assumption].
+Qed.
+
+(* what the loop really returns: an odd number >= n that is 1 or an (odd) prime;
+   NOT the least prime >= n (nearest_prime 2 = 3) and not a prime for n <= 1 *)
+Theorem nearest_prime_spec fuel n r :
+  nearest_prime fuel n = Some r ->
+  n <= r /\ r mod 2 = 1 /\ (r = 1 \/ prime r) /\ (2 <= n -> prime r).
+Proof.
+  unfold nearest_prime. intros H.
+  destruct (nearest_prime_loop_spec _ _ _ H) as [H1 [H2 H3]].
+  pose proof (odd_no_factor_prime r H2 H3) as Hp.
+  split; [assumption|]. split; [assumption|]. split; [assumption|].
+  intros Hn. destruct Hp as [->|Hp]; [lia|assumption].
+Qed.
+
+(* a table size returned by nearest_prime makes every step value coprime *)
+Corollary nearest_prime_coprime fuel n m h2 :
+  nearest_prime fuel n = Some m ->
+  (m = 1 /\ h2 = 0) \/ (1 <= h2 < m) ->
+  N.gcd h2 m = 1.
+Proof.
+  intros H Hh. destruct (nearest_prime_spec _ _ _ H) as [_ [_ [Hp _]]].
+  destruct Hh as [[-> ->]|Hh]; [reflexivity|].
+  destruct Hp as [->|Hp]; [lia|]. apply prime_coprime; assumption.
+Qed.
+
+(* ------------------------------------------------------------------------ *)
+(* the boolean checker run by the harness on the real (tsize, h1, h2) values  *)
+(* ------------------------------------------------------------------------ *)
+Lemma dh_build_ok_sound m ks :
+  dh_build_ok m ks = true ->
+  m < 2 ^ 32 /\ lenN ks <= m /\ Forall (fun hk => hk_ok m hk = true) ks /\ NoDup (map hk_key ks).
+Proof.
+  unfold dh_build_ok. rewrite !andb_true_iff, N.ltb_lt, N.leb_le, forallb_forall.
+  intros [[[H1 H2] H3] H4]. repeat split; auto.
+  - apply Forall_forall. assumption.
+  - apply keys_nodup_NoDup. assumption.
+Qed.
+
+Lemma Forall2_conj {A B} (R1 R2 : A -> B -> Prop) l l' :
+  Forall2 R1 l l' -> Forall2 R2 l l' -> Forall2 (fun a b => R1 a b /\ R2 a b) l l'.
+Proof. induction 1; intros H2; inversion H2; subst; constructor; auto. Qed.
+
+Lemma Forall2_Forall_l {A B} (P : A -> Prop) (R : A -> B -> Prop) l l' :
+  Forall P l -> Forall2 R l l' -> Forall2 (fun a b => P a /\ R a b) l l'.
+Proof. intros HP; induction 1; inversion HP; subst; constructor; auto. Qed.
+
+(* everything the dictionaries rely on, from the checkable hypothesis *)
+Theorem dh_table_correct m ks :
+  dh_build_ok m ks = true ->
+  exists t cs,
+    dh_build m ks = Some (t, cs) /\ lenN t = m /\
+    Forall2 (fun hk c => dh_search t hk = SFound c /\ dh_search_mul t hk = SFound c /\
+                         dh_locate t hk = Some (dh_id_of_cell t c) /\
+                         dh_extract t (dh_id_of_cell t c) = Some (hk_key hk)) ks cs /\
+    (forall q, ~ In (hk_key q) (map hk_key ks) -> hk_h1 q < m ->
+       dh_search t q = SAbsent /\ dh_search_mul t q = SAbsent /\ dh_locate t q = Some 0).
+Proof.
+  intros Hok. destruct (dh_build_ok_sound _ _ Hok) as [Hm [Hlen [Hhk Hnd]]].
+  destruct (dh_insert_succeeds m ks) as [t [cs Hb]]; try assumption.
+  { change (2 ^ 32) with 4294967296 in Hm. change (2 ^ 63) with 9223372036854775808. lia. }
+  exists t, cs. pose proof (build_lenN _ _ _ _ Hb) as Hl.
+  split; [assumption|]. split; [assumption|]. split.
+  - destruct (dh_id_bijection _ _ _ _ Hb Hnd) as [_ [F2 _]].
+    pose proof (dh_search_inserted _ _ _ _ Hb Hnd) as F1.
+    pose proof (Forall2_Forall_l _ _ _ _ Hhk (Forall2_conj _ _ _ _ F1 F2)) as F.
+    revert F. apply Forall2_imp. intros hk c [Hk [[Hs Hc] [Hl1 [_ He1]]]].
+    split; [assumption|]. split; [|split; assumption].
+    apply hk_ok_spec in Hk as [Hh1 [Hh2 _]].
+    rewrite search_mul_eq; [assumption|lia|lia|lia].
+  - intros q Hq Hh. destruct (dh_search_absent _ _ _ _ q Hb Hq Hh) as [H1 H2].
+    split; [assumption|]. split; [assumption|]. unfold dh_locate. rewrite H1. reflexivity.
+Qed.
+
+(* ------------------------------------------------------------------------ *)
+(* Theorem 4: the three stored representations answer alike                   *)
+(* ------------------------------------------------------------------------ *)
+From Coq Require Import Sorted.
+
+(* contents of the occupied cells, in cell order *)
+Fixpoint occ {A} (t : list (option A)) : list A :=
+  match t with
+  | [] => []
+  | Some x :: r => x :: occ r
+  | None :: r => occ r
+  end.
+
+Lemma tdict_occ t : dh_tdict t = occ t.
+Proof. induction t as [|[x|] r IH]; cbn [dh_tdict occ]; congruence. Qed.
+
+Lemma count1_bits_occ {A} (t : list (option A)) : dh_count1 (dh_bits_of t) = lenN (occ t).
+Proof.
+  unfold dh_bits_of. induction t as [|[x|] r IH]; cbn [map dh_is_occ dh_count1 occ]; [reflexivity| |].
+  - rewrite IH, lenN_cons. reflexivity.
+  - rewrite IH. apply N.add_0_l.
+Qed.
+
+Lemma rank_occ {A} (t : list (option A)) : forall c x,
+  nth_error t c = Some (Some x) ->
+  1 <= dh_count1 (firstn (S c) (dh_bits_of t)) /\
+  nthN (occ t) (dh_count1 (firstn (S c) (dh_bits_of t)) - 1) = Some x.
+Proof.
+  induction t as [|a r IH]; intros [|c] x; cbn [nth_error]; try discriminate.
+  - intros H; injection H as ->. cbn [dh_bits_of map dh_is_occ firstn dh_count1 occ].
+    split; [lia|]. reflexivity.
+  - intros H. destruct (IH _ _ H) as [H1 H2]. unfold dh_bits_of in *.
+    cbn [map]. rewrite firstn_cons. cbn [dh_count1].
+    set (rk := dh_count1 (firstn (S c) (map dh_is_occ r))) in *.
+    destruct a as [x0|]; cbn [dh_is_occ occ].
+    + split; [lia|]. unfold nthN in *.
+      replace (N.to_nat (1 + rk - 1)) with (S (N.to_nat (rk - 1))) by lia. cbn [nth_error]. assumption.
+    + rewrite N.add_0_l. auto.
+Qed.
+
+Lemma select1_from_occ {A} (t : list (option A)) : forall k pos,
+  1 <= k <= lenN (occ t) ->
+  exists p x, dh_select1_from (dh_bits_of t) k pos = Some (pos + N.of_nat p) /\
+              nth_error t p = Some (Some x) /\ nthN (occ t) (k - 1) = Some x.
+Proof.
+  unfold dh_bits_of. induction t as [|a r IH]; intros k pos Hk; cbn [occ] in Hk.
+  - rewrite lenN_nil in Hk. lia.
+  - destruct a as [x0|]; cbn [map dh_is_occ dh_select1_from occ].
+    + rewrite lenN_cons in Hk. destruct (N.eqb_spec k 1) as [->|Hk1].
+      * exists O, x0. split; [f_equal; lia|]. split; reflexivity.
+      * destruct (IH (k - 1) (pos + 1)) as [p [x [H1 [H2 H3]]]]; [lia|].
+        exists (S p), x. split; [rewrite H1; f_equal; lia|]. split; [assumption|].
+        unfold nthN in *. replace (N.to_nat (k - 1)) with (S (N.to_nat (k - 1 - 1))) by lia. assumption.
+    + destruct (IH k (pos + 1)) as [p [x [H1 [H2 H3]]]]; [assumption|].
+      exists (S p), x. split; [rewrite H1; f_equal; lia|]. split; assumption.
+Qed.
+
+Lemma getValue_dh_occ ot id :
+  1 <= id <= lenN (occ ot) -> getValue_dh (dh_finish ot) id = nthN (occ ot) (id - 1).
+Proof.
+  intros Hid. unfold getValue_dh, dh_finish, dh_select1. cbn [ft_bits ft_hash].
+  destruct (N.eqb_spec id 0) as [->|_]; [lia|].
+  destruct (select1_from_occ ot id 0 Hid) as [p [x [H1 [H2 H3]]]].
+  rewrite H1, H3. unfold nthN. replace (N.to_nat (0 + N.of_nat p)) with p by lia.
+  rewrite nth_error_map, H2. reflexivity.
+Qed.
+
+Lemma skipn_cons_nth {A} (l : list A) : forall n x,
+  nth_error l n = Some x -> skipn n l = x :: skipn (S n) l.
+Proof.
+  induction l as [|a r IH]; intros [|n] x; cbn [nth_error]; try discriminate.
+  - intros H; injection H as ->. reflexivity.
+  - intros H. rewrite skipn_cons. rewrite (IH _ _ H). reflexivity.
+Qed.
+
+Lemma compact_from_occ ot cnt : forall i,
+  1 <= i -> (N.to_nat (i - 1) + cnt <= length (occ ot))%nat ->
+  dh_compact_from (dh_finish ot) cnt i = Some (firstn cnt (skipn (N.to_nat (i - 1)) (occ ot))).
+Proof.
+  induction cnt as [|c IH]; intros i Hi Hlen; cbn [dh_compact_from]; [reflexivity|].
+  rewrite getValue_dh_occ by (unfold lenN; lia).
+  destruct (nthN (occ ot) (i - 1)) as [x|] eqn:E.
+  - rewrite IH by lia. unfold nthN in E. rewrite (skipn_cons_nth _ _ _ E), firstn_cons.
+    replace (N.to_nat (i + 1 - 1)) with (S (N.to_nat (i - 1))) by lia. reflexivity.
+  - exfalso. revert E. apply nthN_lt_not_None. unfold lenN. lia.
+Qed.
+
+Lemma compact_B_occ ot : dh_compact_B (dh_finish ot) (lenN (occ ot)) = Some (occ ot).
+Proof.
+  unfold dh_compact_B. rewrite compact_from_occ; [|lia|unfold lenN; cbn; lia].
+  change (N.to_nat (1 - 1)) with O. cbn [skipn]. unfold lenN. rewrite Nat2N.id, firstn_all. reflexivity.
+Qed.
+
+(* ---- HashBBdh: the bitmap of offsets ---------------------------------------- *)
+Lemma fold_set_lenN offs : forall bs,
+  lenN (fold_left (fun bs o => dh_setN bs o true) offs bs) = lenN bs.
+Proof.
+  induction offs as [|o r IH]; intros bs; cbn [fold_left]; [reflexivity|].
+  rewrite IH. apply hsetN_lenN.
+Qed.
+
+Lemma fold_set_nthN offs : forall bs j, j < lenN bs ->
+  nthN (fold_left (fun bs o => dh_setN bs o true) offs bs) j =
+  Some (existsb (N.eqb j) offs || match nthN bs j with Some b => b | None => false end).
+Proof.
+  induction offs as [|o r IH]; intros bs j Hj; cbn [fold_left existsb].
+  - destruct (nthN_lt_Some bs j Hj) as [b Hb]. rewrite Hb. reflexivity.
+  - rewrite IH by (rewrite hsetN_lenN; assumption).
+    destruct (N.eqb_spec j o) as [->|Hne].
+    + rewrite nthN_hsetN_eq by assumption. rewrite orb_true_r. reflexivity.
+    + rewrite nthN_hsetN_neq by congruence. reflexivity.
+Qed.
+
+Lemma nthN_cons_succ {A} (a : A) l j : nthN (a :: l) (j + 1) = nthN l j.
+Proof. unfold nthN. replace (N.to_nat (j + 1)) with (S (N.to_nat j)) by lia. reflexivity. Qed.
+
+Lemma existsb_eqb_In x l : existsb (N.eqb x) l = true <-> In x l.
+Proof.
+  rewrite existsb_exists. split.
+  - intros [y [Hy E]]. apply N.eqb_eq in E. subst. assumption.
+  - intros H. exists x. split; [assumption|apply N.eqb_refl].
+Qed.
+
+(* select on a bitmap that marks exactly the elements of a strictly increasing list *)
+Lemma select1_from_sorted bs : forall base offs k pos,
+  StronglySorted N.lt offs ->
+  (forall o, In o offs -> base <= o < base + lenN bs) ->
+  (forall j, j < lenN bs -> nthN bs j = Some (existsb (N.eqb (base + j)) offs)) ->
+  1 <= k <= lenN offs ->
+  exists o, nthN offs (k - 1) = Some o /\ dh_select1_from bs k pos = Some (pos + (o - base)).
+Proof.
+  induction bs as [|b r IH]; intros base offs k pos Hs Hr Hp Hk.
+  - exfalso. destruct offs as [|o offs]; [rewrite lenN_nil in Hk; lia|].
+    specialize (Hr o (or_introl eq_refl)). rewrite lenN_nil in Hr. lia.
+  - assert (Hb : b = existsb (N.eqb base) offs).
+    { specialize (Hp 0). rewrite N.add_0_r in Hp. unfold nthN in Hp at 1. cbn [N.to_nat nth_error] in Hp.
+      rewrite lenN_cons in Hp. specialize (Hp ltac:(lia)). congruence. }
+    assert (Hp' : forall offs', (forall j, j < lenN r -> existsb (N.eqb (base + (j + 1))) offs = existsb (N.eqb (base + 1 + j)) offs') ->
+                  forall j, j < lenN r -> nthN r j = Some (existsb (N.eqb (base + 1 + j)) offs')).
+    { intros offs' He j Hj. rewrite <- He by assumption. rewrite <- (nthN_cons_succ b r j). apply Hp.
+      rewrite lenN_cons. lia. }
+    cbn [dh_select1_from]. destruct b.
+    + (* the smallest offset is [base] *)
+      symmetry in Hb. apply existsb_eqb_In in Hb.
+      destruct offs as [|o1 offs']; [contradiction|].
+      apply StronglySorted_inv in Hs as [Hs' Hall].
+      assert (Ho1 : o1 = base).
+      { destruct Hb as [|Hb]; [assumption|]. rewrite Forall_forall in Hall. specialize (Hall _ Hb).
+        specialize (Hr o1 (or_introl eq_refl)). lia. }
+      subst o1. rewrite lenN_cons in Hk.
+      destruct (N.eqb_spec k 1) as [->|Hk1].
+      * exists base. split; [reflexivity|]. f_equal. lia.
+      * destruct (IH (base + 1) offs' (k - 1) (pos + 1)) as [o [Ho Hsel]]; try assumption.
+        -- intros o Ho. rewrite Forall_forall in Hall. specialize (Hall _ Ho).
+           specialize (Hr o (or_intror Ho)). rewrite lenN_cons in Hr. lia.
+        -- apply Hp'. intros j Hj. cbn [existsb].
+           destruct (N.eqb_spec (base + (j + 1)) base); [lia|]. cbn [orb].
+           replace (base + (j + 1)) with (base + 1 + j) by lia. reflexivity.
+        -- lia.
+        -- exists o. split.
+           ++ unfold nthN in *. replace (N.to_nat (k - 1)) with (S (N.to_nat (k - 1 - 1))) by lia. assumption.
+           ++ rewrite Hsel. f_equal.
+              assert (base < o).
+              { rewrite Forall_forall in Hall. apply Hall. eapply nthN_In; eauto. }
+              lia.
+    + (* [base] is not an offset *)
+      assert (Hnb : ~ In base offs).
+      { intros Hin. apply existsb_eqb_In in Hin. congruence. }
+      destruct (IH (base + 1) offs k (pos + 1)) as [o [Ho Hsel]]; try assumption.
+      * intros o Ho. specialize (Hr o Ho). rewrite lenN_cons in Hr.
+        assert (o <> base) by (intros ->; contradiction). lia.
+      * apply Hp'. intros j Hj. replace (base + (j + 1)) with (base + 1 + j) by lia. reflexivity.
+      * exists o. split; [assumption|]. rewrite Hsel. f_equal.
+        assert (o <> base) by (intros ->; apply Hnb; eapply nthN_In; eauto).
+        assert (base <= o) by (apply Hr; eapply nthN_In; eauto). lia.
+Qed.
+
+Lemma sorted_nth_le l : StronglySorted N.lt l -> forall i j a b,
+  nth_error l i = Some a -> nth_error l j = Some b -> (i <= j)%nat -> a <= b.
+Proof.
+  induction 1 as [|x l Hs IH Hall]; intros [|i] [|j] a b; cbn [nth_error]; try discriminate; intros Ha Hb Hij.
+  - injection Ha as <-. injection Hb as <-. lia.
+  - injection Ha as <-. rewrite Forall_forall in Hall. apply nth_error_In in Hb. specialize (Hall _ Hb). lia.
+  - lia.
+  - eapply IH; eauto. lia.
+Qed.
+
+Lemma offbits_BB_occ ot :
+  StronglySorted N.lt (occ ot) -> 1 <= lenN (occ ot) ->
+  exists offb, dh_offbits_BB (dh_finish ot) (lenN (occ ot)) = Some offb /\
+    forall id, 1 <= id <= lenN (occ ot) -> dh_select1 offb id = nthN (occ ot) (id - 1).
+Proof.
+  intros Hs Hn. unfold dh_offbits_BB.
+  rewrite getValue_dh_occ by lia. rewrite compact_B_occ.
+  destruct (nthN_lt_Some (occ ot) (lenN (occ ot) - 1)) as [last Hlast]; [lia|]. rewrite Hlast.
+  eexists. split; [reflexivity|].
+  set (bs0 := repeat false (N.to_nat (last + 1))).
+  assert (Hl0 : lenN bs0 = last + 1) by (unfold bs0, lenN; rewrite repeat_length; lia).
+  assert (Hle : forall o, In o (occ ot) -> o <= last).
+  { intros o Ho. apply In_nth_error in Ho as [i Hi].
+    apply (sorted_nth_le _ Hs i (N.to_nat (lenN (occ ot) - 1)) o last Hi Hlast).
+    assert (i < length (occ ot))%nat by (apply nth_error_Some; congruence). unfold lenN. lia. }
+  intros id Hid. unfold dh_select1. destruct (N.eqb_spec id 0); [lia|].
+  destruct (select1_from_sorted (fold_left (fun bs o => dh_setN bs o true) (occ ot) bs0) 0 (occ ot) id 0)
+    as [o [Ho Hsel]]; try assumption.
+  - intros o Ho. rewrite fold_set_lenN, Hl0. specialize (Hle o Ho). lia.
+  - intros j Hj. rewrite fold_set_lenN in Hj. rewrite fold_set_nthN by assumption.
+    rewrite Hl0 in Hj.
+    assert (Hf : nthN bs0 j = Some false).
+    { unfold nthN, bs0. apply nth_error_repeat. lia. }
+    rewrite Hf, orb_false_r. reflexivity.
+  - rewrite Hsel, Ho. f_equal. lia.
+Qed.
+
+Theorem hash_repr_equiv ot :
+  StronglySorted N.lt (occ ot) -> 1 <= lenN (occ ot) ->
+  exists comp offb,
+    dh_count1 (ft_bits (dh_finish ot)) = lenN (occ ot) /\
+    dh_compact_B (dh_finish ot) (lenN (occ ot)) = Some comp /\
+    dh_offbits_BB (dh_finish ot) (lenN (occ ot)) = Some offb /\
+    (* getValuePos: the offset stored for an occupied cell *)
+    (forall c o, nthN ot c = Some (Some o) ->
+       getValuePos_dh (dh_finish ot) c = Some o /\
+       getValuePos_B (ft_bits (dh_finish ot)) comp c = Some o /\
+       getValuePos_BB (ft_bits (dh_finish ot)) offb c = Some o) /\
+    (* getValue: the offset of the id-th string *)
+    (forall id, 1 <= id <= lenN (occ ot) ->
+       exists o, nthN (occ ot) (id - 1) = Some o /\
+         getValue_dh (dh_finish ot) id = Some o /\ getValue_B comp id = Some o /\ getValue_BB offb id = Some o).
+Proof.
+  intros Hs Hn. destruct (offbits_BB_occ ot Hs Hn) as [offb [Hoffb Hsel]].
+  exists (occ ot), offb.
+  split; [apply (count1_bits_occ ot)|]. split; [apply compact_B_occ|]. split; [assumption|]. split.
+  - intros c o Hc. unfold nthN in Hc.
+    destruct (rank_occ ot (N.to_nat c) o Hc) as [H1 H2].
+    assert (Hub : dh_count1 (firstn (S (N.to_nat c)) (dh_bits_of ot)) <= lenN (occ ot)).
+    { apply nthN_Some_lt in H2. lia. }
+    split; [|split].
+    + unfold getValuePos_dh, dh_finish, nthN. cbn [ft_hash]. rewrite nth_error_map, Hc. reflexivity.
+    + unfold getValuePos_B, dh_rank1, dh_finish. cbn [ft_bits]. assumption.
+    + unfold getValuePos_BB, dh_rank1, dh_finish. cbn [ft_bits]. rewrite Hsel by lia. assumption.
+  - intros id Hid. destruct (nthN_lt_Some (occ ot) (id - 1)) as [o Ho]; [lia|].
+    exists o. split; [assumption|]. split; [|split].
+    + rewrite getValue_dh_occ by assumption. assumption.
+    + unfold getValue_B. assumption.
+    + unfold getValue_BB. rewrite Hsel by assumption. assumption.
+Qed.
+
+(* ------------------------------------------------------------------------ *)
+(* the precondition length ks <= tsize is necessary: with a table smaller     *)
+(* than the number of strings (constructor called with overhead < 0) insert   *)
+(* returns (size_t)-1 and the caller then writes hashtable[(size_t)-1].        *)
+(* Witness = the hash values of "aa","bb","cc","dd" for tsize 3 (replayed).    *)
+(* ------------------------------------------------------------------------ *)
+Theorem dh_insert_overfull_refuted :
+  exists m ks, NoDup (map hk_key ks) /\ Forall (fun hk => hk_ok m hk = true) ks /\
+               lenN ks = m + 1 /\ dh_build m ks = None.
+Proof.
+  exists 3, [mkHKey [97; 97] 1 1; mkHKey [98; 98] 2 1; mkHKey [99; 99] 0 1; mkHKey [100; 100] 1 1].
+  split; [apply keys_nodup_NoDup; vm_compute; reflexivity|].
+  split; [repeat constructor|]. split; vm_compute; reflexivity.
 Qed.
